@@ -213,4 +213,149 @@ theorem success_writes_once (C : CryptoFns) (key : J) (file : Option Bytes) (st 
   rw [this]
   rfl
 
+/-! ## link between the step machine and the value-level function of C11 -/
+
+open CCT.C15 CCT.C11
+
+theorem runSteps_signOnes (C : CryptoFns) (key : J) : ∀ (arts : List (PStr × J)) (rest : List SignStep) (i : Nat) (st : SignSt),
+    runSteps C key none i (arts.map (fun a => SignStep.signOne a.1 a.2) ++ rest) st =
+      runSteps C key none (i + arts.length) rest
+        { st with sigs := arts.foldl (fun s a => dictSet s a.1 (artifactEntry C (unhex (strOf key)) a.2)) st.sigs }
+  | [], rest, i, st => by simp
+  | (n, md) :: r, rest, i, st => by
+    simp only [List.map_cons, List.cons_append, runSteps, List.foldl_cons, List.length_cons]
+    have : ¬ ((none : Option Nat) = some i) := by simp
+    simp only [this, if_false, execStep]
+    rw [runSteps_signOnes C key r rest (i + 1) _]
+    simp only [artifactEntry, C09.pubHex, C09.sigEntry]
+    congr 1
+    omega
+
+theorem done_cons (C : CryptoFns) (key : J) (i : Nat) (s : SignStep) (r : List SignStep) (st fin : SignSt)
+    (h : runSteps C key none i (s :: r) st = (.done, fin)) :
+    ∃ st', execStep C key st s = .ok st' ∧ runSteps C key none (i + 1) r st' = (.done, fin) := by
+  simp only [runSteps] at h
+  have : ¬ ((none : Option Nat) = some i) := by simp
+  simp only [this, if_false] at h
+  cases he : execStep C key st s with
+  | error e => rw [he] at h; simp at h
+  | ok st' => rw [he] at h; exact ⟨st', rfl, h⟩
+
+/-- **what a successful run writes is exactly the canonical serialization of the value-level result** (`signRepodataJ`, characterised in C11):
+the step machine (C18) and the value-level function (C11) describe the same computation -/
+theorem success_writes_signed_document (C : CryptoFns) (key : J) (file : Option Bytes) (st : SignSt)
+    (h : runSignRepo C key file none = (.done, st)) :
+    ∃ doc doc', loadFile file = .ok doc ∧ signRepodataJ C doc key = .ok doc' ∧ st.file = some (ser doc') ∧ st.opens = [.read, .write] := by
+  unfold runSignRepo at h
+  -- in every branch the run starts with validate, openRead, parse
+  have start : ∀ (rest : List SignStep) (fin : SignSt),
+      runSteps C key none 0 ([.validate, .openRead, .parse] ++ rest) (initSt file) = (.done, fin) →
+      ∃ doc, loadFile file = .ok doc ∧ checkHexKeyJ key = .ok () ∧
+        runSteps C key none 3 rest { (initSt file) with opens := [.read], doc := doc } = (.done, fin) := by
+    intro rest fin h0
+    obtain ⟨s1, e1, h1⟩ := done_cons C key 0 _ _ _ _ h0
+    obtain ⟨s2, e2, h2⟩ := done_cons C key 1 _ _ _ _ h1
+    obtain ⟨s3, e3, h3⟩ := done_cons C key 2 _ _ _ _ h2
+    simp only [execStep, bind, Except.bind] at e1
+    cases hk : checkHexKeyJ key with
+    | error e => rw [hk] at e1; cases e1
+    | ok _ =>
+      rw [hk] at e1; simp only [pure, Except.pure] at e1; cases e1
+      simp only [execStep, initSt] at e2
+      cases hf : file with
+      | none => rw [hf] at e2; cases e2
+      | some b =>
+        rw [hf] at e2; simp only at e2; cases e2
+        simp only [execStep] at e3
+        cases hl : loadFile (some b) with
+        | error e => rw [hl] at e3; cases e3
+        | ok doc =>
+          rw [hl] at e3; simp only at e3; cases e3
+          exact ⟨doc, rfl, rfl, by simpa [initSt, hf] using h3⟩
+  cases hl : loadFile file with
+  | error e =>
+    rw [hl] at h
+    simp only at h
+    have hplan : signPlan file = [.validate, .openRead, .parse] ++ [.checkPackages, .reset, .finish, .serialize, .openTrunc, .write] := by
+      simp [signPlan, planArts, hl]
+    rw [hplan] at h
+    obtain ⟨doc, hd, _⟩ := start _ _ h
+    rw [hl] at hd; cases hd
+  | ok doc =>
+    rw [hl] at h
+    simp only at h
+    cases ha : artifactsOf doc with
+    | error e =>
+      rw [ha] at h
+      simp only at h
+      generalize runSteps C key none 0 [.validate, .openRead, .parse, .checkPackages, .reset] (initSt file) = r at h
+      obtain ⟨r1, r2⟩ := r
+      cases r1 <;> simp at h
+    | ok arts =>
+      rw [ha] at h
+      simp only at h
+      have hplan : signPlan file = [.validate, .openRead, .parse] ++ (.checkPackages :: .reset :: (arts.map (fun a => SignStep.signOne a.1 a.2) ++
+          [.finish, .serialize, .openTrunc, .write])) := by simp [signPlan, planArts, hl, ha]
+      rw [hplan] at h
+      obtain ⟨doc0, hd, hk, h3⟩ := start _ _ h
+      rw [hl] at hd; cases hd
+      obtain ⟨s4, e4, h4⟩ := done_cons C key 3 _ _ _ _ h3
+      obtain ⟨s5, e5, h5⟩ := done_cons C key 4 _ _ _ _ h4
+      simp only [execStep, bind, Except.bind] at e4
+      cases hpk : pyInStr (ps! "packages") doc with
+      | error e => rw [hpk] at e4; cases e4
+      | ok bpk =>
+        rw [hpk] at e4
+        cases bpk with
+        | false => simp at e4
+        | true =>
+          simp only [Bool.not_true, Bool.false_eq_true, if_false, pure, Except.pure] at e4
+          cases e4
+          simp only [execStep] at e5
+          cases doc with
+          | obj top =>
+            simp only at e5
+            cases e5
+            rw [runSteps_signOnes C key arts _ _ _] at h5
+            obtain ⟨s6, e6, h6⟩ := done_cons C key _ _ _ _ _ h5
+            obtain ⟨s7, e7, h7⟩ := done_cons C key _ _ _ _ _ h6
+            obtain ⟨s8, e8, h8⟩ := done_cons C key _ _ _ _ _ h7
+            obtain ⟨s9, e9, h9⟩ := done_cons C key _ _ _ _ _ h8
+            simp only [execStep] at e6
+            cases e6
+            simp only [execStep] at e7
+            cases e7
+            simp only [execStep] at e8
+            cases e8
+            simp only [execStep] at e9
+            cases e9
+            simp only [runSteps] at h9
+            cases h9
+            obtain ⟨ks, rfl, hks⟩ : ∃ ks, key = .str ks ∧ HexN 64 (.str ks) := by
+              obtain ⟨s, rfl, h64, hall⟩ := (checkHexKey_iff key).mp hk
+              exact ⟨s, rfl, s, rfl, h64, hall⟩
+            simp only [artifactsOf] at ha
+            cases hp : dictGet (ps! "packages") top with
+            | none => simp [pyInStr_obj, dictHas, hp] at hpk
+            | some pk =>
+              rw [hp] at ha
+              cases pk with
+              | obj a =>
+                simp only at ha
+                cases hc : dictGet (ps! "packages.conda") top with
+                | none =>
+                  rw [hc] at ha; cases ha
+                  refine ⟨_, _, rfl, signRepo_ok C top ks hks arts [] hp (Or.inr ⟨hc, rfl⟩), ?_, rfl⟩
+                  simp only [sigSection, List.append_nil, strOf_str, dictSet_overwrite]
+                | some c =>
+                  rw [hc] at ha
+                  cases c with
+                  | obj b2 =>
+                    cases ha
+                    refine ⟨_, _, rfl, signRepo_ok C top ks hks a b2 hp (Or.inl hc), ?_, rfl⟩
+                    simp only [sigSection, strOf_str, dictSet_overwrite]
+                  | _ => cases ha
+              | _ => cases ha
+          | _ => cases e5
+
 end CCT.C18
